@@ -267,16 +267,21 @@ func (i *IPC) ProxyAnswers(arg messages.Arg, response *[]byte) error {
 		success = false
 	}
 
+	if success {
+		select {
+		case snowflake.answerChannel <- answer:
+		default:
+			// An answer for this snowflake is already waiting for the client.
+			success = false
+		}
+	}
+
 	b, err := messages.EncodeAnswerResponse(success)
 	if err != nil {
 		log.Printf("Error encoding answer: %s", err.Error())
 		return messages.ErrInternal
 	}
 	*response = b
-
-	if success {
-		snowflake.answerChannel <- answer
-	}
 
 	return nil
 }
